@@ -122,6 +122,14 @@ pub use fixed::{Bv128, Bv16, Bv192, Bv256, Bv32, Bv320, Bv384, Bv448, Bv512, Bv6
 pub use iter::BitIterator;
 use utils::{IArray, IArrayMut};
 
+/// Verification hooks: expose the integer helper traits to an external test harness.
+/// Compiled only with `--cfg bva_verif`; the crate is otherwise unchanged.
+#[cfg(bva_verif)]
+#[doc(hidden)]
+pub mod verif_hooks {
+    pub use crate::utils::{Constants, IArray, IArrayMut, Integer, StaticCast};
+}
+
 /// The endianness of an I/O operation.
 #[derive(Copy, Clone, PartialEq, Eq)]
 pub enum Endianness {
